@@ -3,6 +3,7 @@ package main
 import (
 	"bytes"
 	"fmt"
+	"os"
 	"runtime"
 	"runtime/debug"
 	"sort"
@@ -28,12 +29,13 @@ import (
 // (except the fee collector, which the distribution module sweeps) must equal the explorer's.
 
 type simWorld struct {
-	app     *simapp.SimApp
-	ctx     sdk.Context
-	handler sdk.Handler
-	mk      servicekeeper.Keeper // the keeper module calls go through
-	height  int64
-	time    int64
+	app       *simapp.SimApp
+	ctx       sdk.Context
+	handler   sdk.Handler
+	mk        servicekeeper.Keeper // the keeper module calls go through
+	lastPanic string
+	height    int64
+	time      int64
 }
 
 func newSimWorld(sc *Scenario) *simWorld {
@@ -155,7 +157,10 @@ func (w *simWorld) exec(a Action) (outcome string) {
 	defer func() {
 		if p := recover(); p != nil {
 			outcome = "panic"
-			_ = debug.Stack()
+			w.lastPanic = fmt.Sprint(p) + " @ " + trimTrace(string(debug.Stack()))
+			if os.Getenv("VERIF_DEBUG_STACK") != "" {
+				fmt.Println(string(debug.Stack()))
+			}
 		}
 	}()
 	switch {
@@ -239,6 +244,8 @@ func (w *simWorld) compare(rig *Rig, s *State, where string) string {
 	return ""
 }
 
+const haltMark = "\x00halt"
+
 // conformOne replays one explored trace on both the explorer's rig and the full application.
 func conformOne(sc *Scenario, trace []string) (blocks int, errStr string) {
 	defer func() {
@@ -254,7 +261,17 @@ func conformOne(sc *Scenario, trace []string) (blocks int, errStr string) {
 		out := w.exec(a)
 		want := res.Outcome()
 		if out != want {
-			return fmt.Sprintf("action %s: explorer %s, full application %s", a.Name, want, out)
+			d := fmt.Sprintf("action %s: explorer %s, full application %s", a.Name, want, out)
+			if out == "panic" {
+				d += " (" + w.lastPanic + ")"
+			}
+			if res.Panic != "" {
+				d += " (explorer: " + res.Panic + ")"
+			}
+			return d
+		}
+		if a.Kind == "E" && out == "panic" {
+			return haltMark // both halted: nothing after a chain halt is comparable
 		}
 		s = post
 		if a.Kind == "E" {
@@ -272,6 +289,9 @@ func conformOne(sc *Scenario, trace []string) (blocks int, errStr string) {
 	}
 	s.Msgs = 0
 	for i, name := range trace {
+		if name == "restart" {
+			return blocks, "" // the prefix up to the restart is what the full application is compared on
+		}
 		v := rig.Decode(s)
 		var act *Action
 		for _, a := range sc.Enabled(v) {
@@ -284,7 +304,9 @@ func conformOne(sc *Scenario, trace []string) (blocks int, errStr string) {
 		if act == nil {
 			return blocks, fmt.Sprintf("step %d: action %q not enabled", i, name)
 		}
-		if d := step(*act); d != "" {
+		if d := step(*act); d == haltMark {
+			return blocks, ""
+		} else if d != "" {
 			return blocks, fmt.Sprintf("trace %v: %s", trace[:i+1], d)
 		}
 	}
